@@ -364,7 +364,13 @@ func (x *Exec) callFunc(s *State, call *ast.CallExpr, f *types.Func, recv *Term)
 		}
 		parts = append(parts, StrLit("\n"))
 		cur := x.getSt(s, "stdout", SStr)
-		x.setSt(s, "stdout", catTerms(cur, catAll(parts)))
+		txt := catAll(parts)
+		nw := catTerms(cur, txt)
+		x.setSt(s, "stdout", nw)
+		// instances of len_cat / len_nonneg (the text ends with a newline): stated here because the relevance filter
+		// keeps axioms by the syntactic shape of their triggers
+		s.assume(Eq(mk("s.len", SInt, nw), Add(mk("s.len", SInt, cur), mk("s.len", SInt, txt))))
+		s.assume(Le(Num(1), mk("s.len", SInt, txt)))
 		return []*Term{x.fresh("n", SInt), V("err_nil", SErr)}
 	case "fmt.Printf", "fmt.Print", "log.Printf", "log.Println", "log.Print":
 		// diagnostic output: arguments are evaluated (their obligations count), the text goes to the ghost stdout
@@ -372,7 +378,9 @@ func (x *Exec) callFunc(s *State, call *ast.CallExpr, f *types.Func, recv *Term)
 			x.evalMulti(s, a)
 		}
 		cur := x.getSt(s, "stdout", SStr)
-		x.setSt(s, "stdout", catTerms(cur, x.fresh("printed", SStr)))
+		nw := catTerms(cur, x.fresh("printed", SStr))
+		x.setSt(s, "stdout", nw)
+		s.assume(Le(mk("s.len", SInt, cur), mk("s.len", SInt, nw)))
 		if strings.HasPrefix(name, "fmt.") {
 			return []*Term{x.fresh("n", SInt), V("err_nil", SErr)}
 		}
